@@ -131,7 +131,7 @@ pub fn run(ctx: &mut Ctx) {
         }
     }
     ctx.stratum("M-multi-alternative", false);
-    let n = ctx.tier.pick(40_000u64, 4_000_000u64);
+    let n = ctx.tier.n(40_000, 4_000_000);
     for i in 0..n {
         if ctx.take() {
             let mut r = Rng::for_case(ctx.seed, "C08-M", i);
@@ -146,7 +146,7 @@ pub fn run(ctx: &mut Ctx) {
         }
     }
     ctx.stratum("P-prerelease-and-big-bounds", false);
-    let n = ctx.tier.pick(20_000u64, 2_000_000u64);
+    let n = ctx.tier.n(20_000, 2_000_000);
     for i in 0..n {
         if ctx.take() {
             let mut r = Rng::for_case(ctx.seed, "C08-P", i);
